@@ -756,7 +756,13 @@ pub fn run_c03(ctx: &Ctx, out: &mut Out) {
                 1 => size - 1,
                 _ => rng.usize_below(size),
             };
-            batches.push(Batch { size, index, midp, radi: if proto == Proto::Classic { 5_000_000 } else { 5 }, mint: 0, maxt: u64::MAX });
+            // delegation windows: unbounded, or tight with the midpoint on either (inclusive) edge
+            let mint = *rng.pick(&[0u64, 0, midp, midp.saturating_sub(1), midp / 2]);
+            let maxt = *rng.pick(&[u64::MAX, u64::MAX, midp, midp.saturating_add(1), midp.saturating_mul(2)]);
+            if mint == midp || maxt == midp {
+                out.obs("honest_midpoint_on_window_edge", 1);
+            }
+            batches.push(Batch { size, index, midp, radi: if proto == Proto::Classic { 5_000_000 } else { 5 }, mint, maxt });
         }
         let forger = Forger { srv: &srv, evil: &evil, proto, earlier_genuine: vec![] };
         let mut rr = Rng::new(rng.next_u64());
